@@ -11,10 +11,16 @@ programs, inside any surrounding code, without touching the rest of the stack or
 truthy, `c ? x : y` mentions exactly one branch, …) this is the statement that the emitted jump
 sequences implement the lazy semantics.  The folded cases are part of the same induction
 (`fold_sound_partial`: a constant the compiler computed is `evalSpec e env` in every such environment).
+`compile_correct_match_partial` is the same statement for `InFragmentM`, which adds `match` with `_` and
+comparison patterns, under the extra assumption that no parameter is bound to an identifier value.
+`exec_correct_partial` / `exec_correct_match_partial` lift both to `execProg`; the readable corollaries
+(`or_skips_rhs`, `and_skips_rhs_on_falsy_or_failing`, `tern_exactly_one`, `tern_fails_on_failing_cond`,
+`unevaluated_failure_invisible`, `match_first_case_only`, `match_none_is_null`, …) are stated about
+executions of compiled programs.
 
-NOT covered (`…_partial`): `match`, map literals, f-strings, postfix chains (member access, index, calls,
-macros), stored programs reached through identifiers, call logs.  For those constructors the property is
-carried by the correspondence run of the check (facet C05), as before.
+NOT covered (`…_partial`): type patterns of `match`, map literals, f-strings, postfix chains (member
+access, index, calls, macros), stored programs reached through identifiers, call logs.  For those
+constructors the property is carried by the correspondence run of the check (facet C05), as before.
 -/
 namespace Rscel
 namespace C05Compile
@@ -233,7 +239,40 @@ theorem chainParts_inv {L : CPX} {vl : Val} (hL : Inv B rec top env L vl) (op : 
       exact ⟨vl, [], rfl, hL.runs, fun _ hp => (by cases hp), rfl⟩
   · exact ⟨vl, [], rfl, hL.runs, fun _ hp => (by cases hp), rfl⟩
 
-theorem inv_all (hnp : NoProgs env) {e : Ast} (h : InFragment e) :
+theorem step_cmp {B : Builtins} {rec top : Rec} {env : Env} (op : CmpOp) (len pc : Nat) (s : St) :
+    step B rec top env len op.instr pc s = liftNext pc (binop rec op.apply env s) := by
+  cases op <;> rfl
+
+def casePat : MCase → Pat
+  | .mk _ p _ => p
+def caseBody : MCase → Ast
+  | .mk _ _ b => b
+
+theorem compileCases_eq (B : Builtins) (cases : List MCase) :
+    compileCases B cases = cases.map (fun c => (compilePat B (casePat c), (compileX B (caseBody c)).cp.toCode)) := by
+  induction cases with
+  | nil => simp [compileCases]
+  | cons c cs ih => cases c; simp [compileCases, ih, casePat, caseBody]
+
+theorem evalSpecCases_eq (cases : List MCase) (vs : Val) (env : Env) :
+    evalSpecCases cases vs env =
+      matchVal (cases.map (fun c => (evalSpecPat (casePat c) vs env, evalSpec (caseBody c) env))) := by
+  induction cases with
+  | nil => simp [evalSpecCases, matchVal]
+  | cons c cs ih =>
+    cases c with
+    | mk sp p b =>
+      rw [evalSpecCases, ih]
+      simp only [List.map_cons, matchVal, casePat, caseBody]
+      cases h : evalSpecPat p vs env <;> simp [matched]
+      rename_i x; cases x <;> simp
+
+theorem plain_of_runs {c : List Instr} {v : Val} (hpp : PlainParams env) (h : Runs B rec top env c v) :
+    Plain v := by
+  obtain ⟨w, _, rfl, _, _⟩ := h
+  exact plain_resolve hpp w
+
+theorem inv_all (hnp : NoProgs env) {m : Bool} (hpp : m = true → PlainParams env) {e : Ast} (h : Frag m e) :
     Inv B rec top env (compileX B e) (evalSpec e env) := by
   induction h with
   | null sp sp' =>
@@ -353,6 +392,33 @@ theorem inv_all (hnp : NoProgs env) {e : Ast} (h : InFragment e) :
       have hr := ihc.runs
       rw [hc] at hr
       exact inv_code (runs_tern hnp hr iht.runs ihf.runs)
+  | match_ sp s cases hm _ _ _ hnt ihs iharm ihcmp =>
+    have hcx : compileX B (.match_ sp s cases) =
+        { cp := .code ((compileX B s).cp.toCode ++ matchTail (compileCases B cases)) } := by simp [compileX]
+    have hes : evalSpec (.match_ sp s cases) env = evalSpecCases cases (evalSpec s env) env := by rw [evalSpec]
+    rw [hcx, hes, compileCases_eq, evalSpecCases_eq]
+    have hv : Plain (evalSpec s env) := plain_of_runs (hpp hm) ihs.runs
+    have := runs_match (B := B) (rec := rec) (top := top) hnp ihs.runs hv
+      (cases.map (fun c => ((compilePat B (casePat c), (compileX B (caseBody c)).cp.toCode),
+        (evalSpecPat (casePat c) (evalSpec s env) env, evalSpec (caseBody c) env))))
+      (fun q hq => by
+        obtain ⟨c, hc, rfl⟩ := List.mem_map.mp hq
+        cases c with
+        | mk sp' p b =>
+          simp only [casePat, caseBody]
+          refine ⟨?_, ?_, (iharm sp' p b hc).runs⟩
+          · cases p with
+            | any _ => simp [evalSpecPat, BoolOrErr]
+            | cmp _ _ op e => simp only [evalSpecPat]; exact boe_cmp _ _ _
+            | type sp1 t name => exact absurd hc (hnt sp' sp1 t name b)
+          · cases p with
+            | any _ => simp only [compilePat, evalSpecPat]; exact go_pat_any hnp _
+            | cmp sp1 sp2 op e =>
+              simp only [compilePat, evalSpecPat]
+              exact go_pat_cmp hnp (step_cmp op) hv (ihcmp sp' sp1 sp2 op e b hc).runs
+            | type sp1 t name => exact absurd hc (hnt sp' sp1 t name b))
+    apply inv_code
+    simpa [List.map_map, Function.comp_def] using this
 
 end
 
@@ -369,14 +435,14 @@ variable {B : Builtins} {env : Env}
     Not covered: `match`, map literals, f-strings, member access / index / calls / macros, stored programs. -/
 theorem compile_correct_partial {rec top : Rec} (hnp : NoProgs env) {e : Ast} (h : InFragment e) :
     Runs B rec top env (compileX B e).cp.toCode (evalSpec e env) :=
-  (inv_all hnp h).runs
+  (inv_all hnp (m := false) (fun h => nomatch h) h).runs
 
 /-- **Folding is sound on the fragment.**  Whenever the compiler replaces a tree by a constant, that constant
     is the value the semantics gives the tree — in every environment (without stored programs), so nothing an
     environment binds can tell the folded program from the unfolded one. -/
 theorem fold_sound_partial (hnp : NoProgs env) {e : Ast} (h : InFragment e) {v : Val}
     (hc : compile B e = .const v) : v = evalSpec e env :=
-  ((inv_all (rec := runAt B 0) (top := runAt B 0) hnp h).const v hc).1
+  ((inv_all (rec := runAt B 0) (top := runAt B 0) hnp (m := false) (fun h => nomatch h) h).const v hc).1
 
 /-- The compiled program, run as `CelContext::exec` runs it. -/
 def run (B : Builtins) (env : Env) (e : Ast) : Out := execProg B env (compileProgram B e)
@@ -387,6 +453,18 @@ theorem exec_correct_partial (hnp : NoProgs env) {e : Ast} (h : InFragment e) :
     run B env e = outOf (evalSpec e env) [] := by
   show runAt B (31 + 1) env (compileX B e).cp.toCode true [] = _
   exact runAt_of_runs hnp 31 (compile_correct_partial hnp h) []
+
+/-- **With `match`.**  The same statement for trees that may contain `match` with `_` and comparison
+    patterns, in environments where no parameter is bound to an identifier value (the scrutinee is
+    duplicated on the stack before it is compared). Type patterns are not covered. -/
+theorem compile_correct_match_partial {rec top : Rec} (hnp : NoProgs env) (hpp : PlainParams env) {e : Ast}
+    (h : InFragmentM e) : Runs B rec top env (compileX B e).cp.toCode (evalSpec e env) :=
+  (inv_all hnp (fun _ => hpp) h).runs
+
+theorem exec_correct_match_partial (hnp : NoProgs env) (hpp : PlainParams env) {e : Ast} (h : InFragmentM e) :
+    run B env e = outOf (evalSpec e env) [] := by
+  show runAt B (31 + 1) env (compileX B e).cp.toCode true [] = _
+  exact runAt_of_runs hnp 31 (compile_correct_match_partial hnp hpp h) []
 
 theorem outOf_nonerr {v : Val} (log : Log) : (∀ k, v ≠ .err k) → outOf v log = { res := .ok v, log := log } := by
   intro h
@@ -497,8 +575,44 @@ theorem or_fails_otherwise (hnp : NoProgs env) (sp : Span) {a b : Ast} (ha : InF
   have h0 : truthy (Val.err k) = false := rfl
   simp [h0, vOr_err_left, ht]
 
-end
+theorem evalSpecCases_skip (pre rest : List MCase) (vs : Val) (env : Env)
+    (hpre : ∀ c ∈ pre, evalSpecPat (casePat c) vs env ≠ .bool true) :
+    evalSpecCases (pre ++ rest) vs env = evalSpecCases rest vs env := by
+  induction pre with
+  | nil => rfl
+  | cons c cs ih =>
+    have h1 := hpre c (List.mem_cons_self ..)
+    cases c with
+    | mk sp p b =>
+      rw [List.cons_append, evalSpecCases]
+      split
+      · rename_i hb; exact absurd hb h1
+      · exact ih (fun c hc => hpre c (List.mem_cons_of_mem _ hc))
 
+/-- `match`: the arm of the first case whose pattern matches is the result — the arms of the cases before
+    it (whose patterns do not match) and everything after it play no role. -/
+theorem match_first_case_only (hnp : NoProgs env) (hpp : PlainParams env) (sp sp' : Span) {s b : Ast} {p : Pat}
+    {pre post : List MCase} (h : InFragmentM (.match_ sp s (pre ++ .mk sp' p b :: post)))
+    (hpre : ∀ c ∈ pre, evalSpecPat (casePat c) (evalSpec s env) env ≠ .bool true)
+    (hp : evalSpecPat p (evalSpec s env) env = .bool true) :
+    run B env (.match_ sp s (pre ++ .mk sp' p b :: post)) = run B env b := by
+  have hb : InFragmentM b := by
+    cases h with
+    | match_ _ _ _ _ _ harm _ _ => exact harm sp' p b (by simp)
+  rw [exec_correct_match_partial hnp hpp h, exec_correct_match_partial hnp hpp hb, evalSpec,
+    evalSpecCases_skip pre _ _ env hpre, evalSpecCases, hp]
+
+/-- `match`: when no pattern matches the result is `null`. -/
+theorem match_none_is_null (hnp : NoProgs env) (hpp : PlainParams env) (sp : Span) {s : Ast}
+    {cases : List MCase} (h : InFragmentM (.match_ sp s cases))
+    (hnone : ∀ c ∈ cases, evalSpecPat (casePat c) (evalSpec s env) env ≠ .bool true) :
+    run B env (.match_ sp s cases) = { res := .ok .null, log := [] } := by
+  have := evalSpecCases_skip cases [] (evalSpec s env) env hnone
+  rw [List.append_nil] at this
+  rw [exec_correct_match_partial hnp hpp h, evalSpec, this]
+  rfl
+
+end
 
 /-! ### non-vacuity: the hypotheses of every theorem above are satisfiable -/
 
@@ -559,6 +673,35 @@ example : run B env0 (.bin sp0 .or (var "x") (lit 1)) = { res := .ok (.bool true
   or_true_absorbs_failing_lhs np0 sp0 (var_frag "x") (lit_frag 1) (run_unbound B) (run_lit B 1) rfl
 example : run B env0 (.bin sp0 .or (var "x") (lit 0)) = run B env0 (var "x") :=
   or_fails_otherwise np0 sp0 (var_frag "x") (lit_frag 0) (run_unbound B) (run_lit B 0) rfl
+
+-- match: `match 2 { case == 1: x, case _: 20 }` is 20 (the failing arm `x` is not evaluated);
+--        `match 2 { case == 1: x }` is null
+theorem pp0 : PlainParams env0 := by
+  intro n v h; simp [Env.getParam, env0, lookup] at h
+
+def mcase1 : MCase := .mk sp0 (.cmp sp0 sp0 .eq (lit 1)) (var "x")
+def mcaseAny : MCase := .mk sp0 (.any sp0) (lit 20)
+
+theorem match_frag (cs : List MCase) (hcs : ∀ c ∈ cs, c = mcase1 ∨ c = mcaseAny) :
+    InFragmentM (.match_ sp0 (lit 2) cs) := by
+  refine .match_ _ _ _ rfl (.int _ _ _) ?_ ?_ ?_
+  · intro sp' p b hm
+    rcases hcs _ hm with h | h <;> cases h
+    · exact .ident _ _ _
+    · exact .int _ _ _
+  · intro sp' sp1 sp2 op e b hm
+    rcases hcs _ hm with h | h <;> cases h
+    exact .int _ _ _
+  · intro sp' sp1 t name b hm
+    rcases hcs _ hm with h | h <;> cases h
+
+example : run B env0 (.match_ sp0 (lit 2) ([mcase1] ++ mcaseAny :: [])) = run B env0 (lit 20) :=
+  match_first_case_only np0 pp0 sp0 sp0 (p := .any sp0) (b := lit 20)
+    (match_frag _ (by intro c hc; simp at hc; rcases hc with rfl | rfl; exact Or.inl rfl; exact Or.inr rfl))
+    (by intro c hc; simp only [List.mem_singleton] at hc; subst hc; intro h; cases h) rfl
+example : run B env0 (.match_ sp0 (lit 2) [mcase1]) = { res := .ok .null, log := [] } :=
+  match_none_is_null np0 pp0 sp0 (match_frag _ (by simp))
+    (by intro c hc; simp only [List.mem_singleton] at hc; subst hc; intro h; cases h)
 
 end
 
